@@ -4,7 +4,10 @@ package main
 // expression to select something, instantiated with random leaves. Random documents make most
 // generated paths select nothing (null), which says little about the code under test.
 
-import "encoding/json"
+import (
+	"encoding/json"
+	"sort"
+)
 
 type shape struct {
 	kind   int // 0 any, 1 object, 2 array, 3 number, 4 string
@@ -141,8 +144,13 @@ func instShape(s *shape, depth int) any {
 	switch s.kind {
 	case 1:
 		m := map[string]any{}
-		for k, v := range s.fields {
-			m[k] = instShape(v, depth+1)
+		keys := make([]string, 0, len(s.fields))
+		for k := range s.fields {
+			keys = append(keys, k)
+		}
+		sort.Strings(keys) // the PRNG must be consumed in a fixed order: every run of a seed is the same run
+		for _, k := range keys {
+			m[k] = instShape(s.fields[k], depth+1)
 		}
 		if rng.Intn(3) == 0 {
 			m[pick(fieldNames)] = genValue(1)
